@@ -74,6 +74,13 @@ def _nodes(rng, nmax=3, dyadic=False, bigden=False):
             out.append(["mid", rng.randrange(8), rng.choice(DYADIC_TS if dyadic else BIG_TS if bigden else TS)])
     if rng.random() < 0.3:
         out.append(list(out[0]))
+    if rng.random() < 0.07:
+        # many nodes in one request (11-16), with repeats that are NOT adjacent in the given order
+        ts = DYADIC_TS if dyadic else (BIG_TS if bigden else TS)
+        many = [["mid", rng.randrange(8), rng.choice(ts)] for _ in range(rng.randint(7, 10))]
+        many += [list(rng.choice(many)) for _ in range(rng.randint(3, 5))] + [["iknot", rng.randrange(8)]]
+        rng.shuffle(many)
+        out = many
     return out
 
 
@@ -240,6 +247,16 @@ def gen_plan(prop, seed, tier):
             if faulty:
                 op["tol"] = rng.choice(["neg", "none", "bad:str"])
             ops.append(op)
+    if mode == "float" and prop in ("C05", "C14") and not rational and rng.random() < 0.25:
+        # a knot that is ALMOST removable: insert it, move one control point by 1e-6 .. 1e-3, then ask for its removal /
+        # a cleaning with a tight tolerance (the accept / refuse decision sits right at the tolerance)
+        ops.append({"op": "insert", "t": 0, "nodes": [["mid", rng.randrange(8), rng.choice(TS)]], "form": "list"})
+        ops.append({"op": "perturb", "t": 0, "j": rng.randrange(16), "c": "2"})
+        if prop == "C05":
+            ops.append({"op": "remove", "t": 0, "tol": rng.choice(["0", "0", "default", "1e-12"]), "nodes": [], "reuse_last_insert": True,
+                        "form": "list", "tolform": rng.choice(["float", "fraction"])})
+        else:
+            ops.append({"op": rng.choice(["knot_clean", "clean"]), "t": 0, "tol": rng.choice(["0", "default", "1e-12"]), "repeat": False})
     if cfg["twin"] and rng.random() < 0.8:
         # both differently refined twins are cleaned at the end: they must arrive at identical knots and control points
         ctol = rng.choice(["0", "0", "default"])
@@ -455,6 +472,7 @@ class RefEngine:
                 self.shadow = None
         self.last = [None, None]       # record of the last successful mutating step per slot (for undo)
         self.lossy = [False, False]    # the function was changed by an accepted lossy step (expectations dropped)
+        self.last_insert_nodes = [None, None]
         self.cleaned = [False, False]  # the slot's last successful mutator was clean()
         self.drift = [False, False]    # the slot no longer denotes the twins' common function
         self.base_state = None
@@ -565,7 +583,7 @@ class RefEngine:
 
     def op_history(self, ctx, op, t, curve):
         """Unjudged history: the curve's function changes, its knot vector does not."""
-        if not self.numeric or self.cfg["mode"] != "exact":
+        if not self.numeric or (self.cfg["mode"] != "exact" and op["op"] != "perturb"):
             return "skip"
         n = curve.npts
         try:
@@ -579,7 +597,11 @@ class RefEngine:
                 pts = list(curve.ctrlpoints)
                 j = op["j"] % n
                 eps = Fraction(1, 10 ** 6)
-                pts[j] = pts[j] + eps if not isinstance(pts[j], self.np.ndarray) else pts[j] + self.np.array([eps] + [0] * (len(pts[j]) - 1), dtype=object)
+                if self.cfg["mode"] != "exact":
+                    eps = [1e-6, 2e-4, 1e-3][op["j"] % 3]     # float curves: a kink just above / below the default tolerance
+                    pts[j] = pts[j] + eps if not isinstance(pts[j], self.np.ndarray) else pts[j] + self.np.array([eps] + [0.0] * (len(pts[j]) - 1))
+                else:
+                    pts[j] = pts[j] + eps if not isinstance(pts[j], self.np.ndarray) else pts[j] + self.np.array([eps] + [0] * (len(pts[j]) - 1), dtype=object)
                 curve.ctrlpoints = pts
         except Exception:  # noqa
             return "raise:history"
@@ -711,6 +733,7 @@ class RefEngine:
                 ok = False
             ok = self.fn_equal(ctx, s0, s1, "knot_insert(%s)" % [M.enc(M.Fr(v)) for v in vals], self.klass(s0)) and ok
         self.last[t] = {"kind": "insert", "nodes": list(vals), "pre_state": s0, "post_freeze": self.freeze(curve)}
+        self.last_insert_nodes[t] = list(vals)
         return "ok"
 
     # ----- remove (C05) ------------------------------------------------------
@@ -727,6 +750,10 @@ class RefEngine:
             undo = rec
             vals, tags = list(rec["nodes"]), ["undo"]
             ctx.probe("undo-of-insertion")
+        elif op.get("reuse_last_insert"):
+            vals = [v for v in (self.last_insert_nodes[t] or []) if M.kv_mult(s0[0], M.Fr(v)) > 0]
+            tags = ["iknot"] if vals else []
+            ctx.probe("removal-of-almost-removable-knot")
         else:
             vals, tags = self.resolve_all(curve, op["nodes"], cfg, s0)
         if not vals:
@@ -1102,6 +1129,8 @@ class RefEngine:
         s0 = self.alpha(curve)
         rat = s0[2] is not None
         p = M.kv_degree(s0[0])
+        rec0 = self.last[t]
+        self.last_before_clean = rec0 if (rec0 is not None and rec0.get("post_freeze") == self.freeze(curve)) else None
         if len(s0[1]) > 30 or (rat and (p > 2 or len(s0[1]) > 5 or self.rational_steps >= 2)):
             ctx.count("rational_clean_skipped_by_size_rule")
             return "skip"
@@ -1186,8 +1215,21 @@ class RefEngine:
                     width = float(s0[0][-1] - s0[0][0])
                     if est > 2 * tolnum * max(1.0, width) * nsteps * nsteps * 1.05 + 1e-12:
                         ctx.fail("clean-changed-function", klass, "%s(tol=%s) changed the rational curve by about %.3e" % (which, tolname, est))
-        else:
+        elif rat:
             preserved = self.fn_equal(ctx, s0, s1, which, klass)
+        else:
+            # float data, polynomial: an accepted removal may change the curve, each accepted step within its tolerance
+            # (exact integral of the squared deviation of the float-valued states, small slack for rounding)
+            ctx.oracle("function-preserved")
+            nsteps = max(1, (len(s0[0]) - len(s1[0])))
+            devs = M.l2_deviation(s0, s1)
+            width = s0[0][-1] - s0[0][0]
+            scale = max([1.0] + [abs(float(x)) for pt in s0[1] for x in (pt if isinstance(pt, tuple) else (pt,))])
+            bound = 2 * Fraction(tolnum) * max(Fraction(1), width) * nsteps * nsteps * Fraction(1000001, 1000000) + Fraction(scale * scale) * Fraction(1, 10 ** 12)
+            preserved = max(devs) <= Fraction(scale * scale) * Fraction(1, 10 ** 14)
+            if max(devs) > bound:
+                ctx.fail("clean-changed-function", klass, "%s(tol=%s) changed the float curve by %.3e (integral of squared deviation), more than %d accepted steps allow (%.3e)"
+                         % (which, tolname, float(max(devs)), nsteps, float(bound)))
         if not preserved:
             self.lossy[t] = True
         # ---- minimality (polynomial curves, exact arithmetic, function exactly preserved) ----
@@ -1220,6 +1262,23 @@ class RefEngine:
                 if M.kv_degree(s1[0]) != d:
                     ctx.fail("not-minimal", "degree_clean", "after degree_clean() the degree is %d, the curve's true degree is %d"
                              % (M.kv_degree(s1[0]), d))
+        # ---- what the previous step added must be cleaned away again (also in float arithmetic: the removal error of
+        #      knots / degrees that the library itself has just added is ~1e-30, far below the default tolerance) ----
+        rec = self.last_before_clean
+        if rec is not None and tolname == "default" and not rat and preserved:
+            ctx.oracle("cleans-what-was-just-added")
+            if rec["kind"] == "elevate" and which in ("degree_clean", "clean"):
+                p_before = M.kv_degree(rec["pre_state"][0])
+                if M.kv_degree(s1[0]) > p_before:
+                    ctx.fail("not-minimal", which + "-after-elevation", "degree_increase(%d) followed by %s() leaves degree %d (it was %d before the elevation)"
+                             % (rec["times"], which, M.kv_degree(s1[0]), p_before))
+            if rec["kind"] == "insert" and which in ("knot_clean", "clean") and nodes is None:
+                L_before = rec["pre_state"][0]
+                for x in set(M.Fr(v) for v in rec["nodes"]):
+                    if M.kv_mult(s1[0], x) > M.kv_mult(L_before, x) and M.kv_degree(s1[0]) == M.kv_degree(L_before):
+                        ctx.fail("not-minimal", which + "-after-insertion", "knot_insert followed by %s() leaves knot %s with multiplicity %d (it was %d before the insertion)"
+                                 % (which, M.enc(x), M.kv_mult(s1[0], x), M.kv_mult(L_before, x)))
+                        break
         # ---- idempotence ----
         if op.get("repeat") and (self.exact or True):
             f1 = self.freeze(curve)
